@@ -14,7 +14,7 @@ from engine.symreal.shim import installed
 from engine.symreal.zutil import zeval
 
 from . import pyh
-from .common import Part, Report, approx_equal, finish, pmap, quiet, tier_timeout_ms, write_replay
+from .common import Part, Q, Report, approx_equal, finish, pmap, quiet, tier_timeout_ms, write_replay
 from .oblig import prove_equal, reach
 
 PID = "C04"
@@ -331,12 +331,95 @@ def task(p, cse, tier, seed):
     return part.d
 
 
+def int_env(p, rng):
+    """Integer-valued state / control / covariance (diagonally dominant), non-integer dt and calibration."""
+    e = {}
+    for s_ in p.state:
+        e[s_] = float(rng.randint(-4, 4))
+    for c in p.control:
+        e[c] = float(rng.randint(-3, 3))
+    for k in p.calibration:
+        e[k] = rng.randint(1, 7) / 8.0
+    e[p.dt] = rng.choice([0.375, 0.625, 0.15625])
+    ns = sorted(p.state)
+    for i, a in enumerate(ns):
+        for b in ns[i:]:
+            e[f"P_{a}_{b}"] = float(len(ns) + 1 + rng.randint(0, 2)) if a == b else float(rng.choice([0, 1, -1]))
+    return e
+
+
+def float_predict_variant(p, cse, e, variant):
+    """The same prediction with the inputs handed over in another array representation (a dimension the symbolic
+    engine cannot see): integer dtype (values are whole numbers), read-only arrays, Fortran order / strided views."""
+
+    def go():
+        with quiet():
+            pn, sn = pyh.noise_vals_from_env(p, e)
+            ekf = pyh.build_ekf_float(p, e, cse=cse, pn=pn, sn=sn)
+            ss, sc = p.s_state(), p.s_control()
+            sv = np.array([[e[s_]] for s_ in ss])
+            cv = np.array([[e[c]] for c in sc]).reshape(len(sc), 1)
+            P = pyh.float_cov(p.state, e)
+            if variant == "int64":
+                sv, cv, P = sv.astype(np.int64), cv.astype(np.int64), P.astype(np.int64)
+            elif variant == "readonly":
+                for a in (sv, cv, P):
+                    a.setflags(write=False)
+            elif variant == "strided":
+                big = np.zeros((2 * len(ss), 2 * len(ss)))
+                big[::2, ::2] = P
+                P = np.asfortranarray(big)[::2, ::2]
+                sv = np.repeat(sv, 2, axis=1)[:, :1]
+            st = ekf.State.from_data(sv)
+            ct = ekf.Control.from_data(cv)
+            cov = ekf.Covariance.from_data(P)
+            r = ekf.process_model(float(e[p.dt]), st, cov, ct)
+            return {"state": np.array(r.state.data, dtype=float).reshape(-1), "cov": np.array(r.covariance.data, dtype=float)}
+
+    return pyh.gate_guard(go)
+
+
+def task_repr(p, cse, tier, seed):
+    part = Part()
+    part.program(p.id)
+    part.fn("python.ExtendedKalmanFilter.process_model", "common._NamedArrayBase.from_data")
+    rng = random.Random(seed + 404)
+    ss = p.s_state()
+    for variant in ("int64", "readonly", "strided"):
+        for t in range(2 if tier == "quick" else 6):
+            e = int_env(p, rng)
+            key = f"{p.id}/cse={int(cse)}/representation={variant}"
+            try:
+                got = float_predict_variant(p, cse, e, variant)
+            except pyh.GateRejected:
+                continue
+            except Exception as ex:
+                path = write_replay(PID, {"key": key, "info": {"program": p.id, "cse": cse, "kind": "repr", "variant": variant}, "inputs": e, "exception": f"{type(ex).__name__}: {ex}"})
+                part.violation(key, f"process_model raises {type(ex).__name__}: {ex} when the inputs are given as {variant} arrays (values {e})", path)
+                part.record(Q("sat", None, 0.0, ""), f"{key}: prediction == specification at a whole-number point (concrete replay)")
+                break
+            f, Pn = spec_float(p, e)
+            bad = [ss[i] for i in range(len(ss)) if not approx_equal(float(got["state"][i]), f[i])]
+            badP = [(ss[i], ss[j]) for i in range(len(ss)) for j in range(len(ss)) if not approx_equal(float(got["cov"][i, j]), float(Pn[i, j]), abs_=1e-9)]
+            ok = not bad and not badP
+            part.record(Q("unsat" if ok else "sat", None, 0.0, ""), f"{key}: prediction == specification at a whole-number point (concrete replay)")
+            if not ok:
+                path = write_replay(PID, {"key": key, "info": {"program": p.id, "cse": cse, "kind": "repr", "variant": variant}, "inputs": e})
+                part.violation(key, f"process_model with inputs given as {variant} arrays differs from the specification at {e}: state {bad}, covariance {badP[:3]}", path)
+                break
+    return part.d
+
+
 def programs_for(tier, seed):
     if tier == "quick":
-        return [CP.P1(), CP.P3(), CP.P10(), CP.P12(), CP.P14(), CP.P3().restrict(control=False), CP.P3().restrict(calibration=False)]
+        return [CP.P1(), CP.P3(), CP.P10(), CP.P12(), CP.P14(), CP.P17(), CP.P20(), CP.P3().restrict(control=False), CP.P3().restrict(calibration=False)]
     ps = CP.all_fixed() + CP.presence_variants(CP.P3())[1:] + CP.presence_variants(CP.P10())[1:]
     ps += [CP.random_program(seed, i) for i in range(8)]
     return ps
+
+
+def _dispatch(fn, args):
+    return fn(*args)
 
 
 def run(tier, seed):
@@ -346,7 +429,8 @@ def run(tier, seed):
     tasks = [(p, cse, tier, seed) for p in ps for cse in cses]
     if tier == "quick":
         tasks.append((CP.P3(), False, tier, seed))
-    for d in pmap(task, tasks):
+    rtasks = [(task_repr, (p, True, tier, seed)) for p in ps if all(len(rs) for rs in [p.state])]
+    for d in pmap(_dispatch, [(task, t) for t in tasks] + rtasks):
         rep.merge(d)
     rep.bounds = {"programs": [p.id for p in ps], "inputs": "all real dt, state, control, calibration; all symmetric P (proof) - witnesses restricted to diagonally dominant P; all per-control noise > 0", "outside": "floating-point rounding; validity gates treated as assumptions here (their behaviour is C09)"}
     rep.assumptions = ["reals for doubles", "assert_valid_covariance gates assumed to pass (allclose symmetric, eigenvalues >= 0)", "UF abstraction for transcendental functions"]
@@ -370,6 +454,21 @@ def replay(path):
         print(probs)
         print("REPRODUCED" if probs else "not reproduced")
         return 1 if probs else 0
+    if info.get("kind") == "repr":
+        try:
+            got = float_predict_variant(p, info["cse"], e, info["variant"])
+        except pyh.GateRejected as ex:
+            print("candidate rejected by validity gate:", ex)
+            return 0
+        except Exception as ex:
+            print(f"REPRODUCED: raises {type(ex).__name__}: {ex}")
+            return 1
+        f, Pn = spec_float(p, e)
+        ss = p.s_state()
+        bad = [ss[i] for i in range(len(ss)) if not approx_equal(float(got["state"][i]), f[i])]
+        badP = [(i, j) for i in range(len(ss)) for j in range(len(ss)) if not approx_equal(float(got["cov"][i, j]), float(Pn[i, j]), abs_=1e-9)]
+        print("REPRODUCED" if bad or badP else "not reproduced", bad, badP[:4])
+        return 1 if bad or badP else 0
     if info.get("what") == "second-call":
         print("second-call obligation: re-run bin/check C04 (the replay needs the two-call sequence); inputs:", e)
         return 1
